@@ -193,9 +193,19 @@ class Driver:
             n = int(rng.choice([48, 64, 96]))
             ids = [self.nid("a") for _ in range(3)]
 
+            Driver.n_newarr = getattr(Driver, "n_newarr", 0) + 1
+            flavour = Driver.n_newarr % 3
+
             def f():
-                for i in ids:
+                for j, i in enumerate(ids):
                     a = rng.normal(size=n)
+                    if flavour == 1:
+                        # raw digitizer counts: whole numbers held as float64 - with a negative zero among them (the sign of a
+                        # zero is part of the sample) and, on one component, counts beyond the 64-bit integer range
+                        a = np.round(a * 2.0 ** 16)
+                        a[[0, n // 2]] = -0.0
+                        if j == 2:
+                            a[1::7] = np.round(a[1::7]) * 2.0 ** 52 * 4096.0
                     self.live[i], self.kind[i] = a, "arr"
                     self.w.add(i, "arr", arr_slots(a))
             return self.log("NewArr", {}, ids, f)
